@@ -11,7 +11,9 @@ EXPLANATION = (
     "dispatches V4 to the IPv4 tree and V6 to the IPv6 tree; IpFilter::new routes subnets by family using the same bit "
     "placement (IPv4 value << 96) that the lookup uses; no reachable panic in lookup/creation."
 )
-NOT_DECIDED = ["the set semantics of the bit trie itself (coverage merging, child indexing): value-level, not decided"]
+NOT_DECIDED = ["the set semantics of the bit trie as a whole (that lookup(v) is true exactly for covered v) is value-level and not decided; R4 decides the agreements between builder "
+               "and lookup that it rests on (sort order precondition, symbol width, decision order, child indexing, outset only for empty buckets); the coverage-merging arithmetic "
+               "of the 'union of parts' arm is not decided"]
 F = 'ntp_proto::ipfilter::IpFilter'
 FS = '<ntp_proto::server::IpSubnet as core::str::traits::FromStr>::from_str'
 
@@ -84,5 +86,80 @@ def r3(ctx):
     panic.property_rule(ctx, 'C31', 'C31-R3')
 
 
-RULES = [r1, r2, r3]
-FLOORS = {'C31-R1': 9, 'C31-R2': 12, 'C31-R3': 6}
+T = 'ntp_proto::ipfilter::'
+
+
+def r4(ctx):
+    ctx.rule('C31-R4', 'the invariants the bit trie relies on, as agreements between its builder and its lookup: create masks every prefix and sorts the (value, length) pairs with '
+             'the full tuple order before fill_node (fill_node takes the first entry of a bucket as the shortest prefix); symbol width 4 is used consistently (top_nibble, '
+             'lookup shift, builder shift, len -= 4, len <= 4, 1 << (4 - len)); lookup tests inset before outset and computes the child index as '
+             'child_offset + popcount(undecided & (cur - 1)), matching the builder that appends one child per undecided symbol in ascending order')
+    P = ctx.P
+    c = P.body(T + 'BitTree::create')
+    sorts = c.calls(r'slice::(sort|sort_unstable|sort_by|sort_by_key|sort_unstable_by|sort_unstable_by_key|sort_by_cached_key)$')
+    kinds = [short_name(c.callee(s)['def']) for s in sorts]
+    ctx.check('create|sorted-by-value-then-length', kinds in (['slice::sort'], ['slice::sort_unstable']) and N(c.call_args(sorts[0])[0]) == 'data',
+              'prefixes are ordered with %s: fill_node needs the full (value, length) order so that the first entry of a bucket is the shortest prefix' % kinds, sorts[0].where() if sorts else None, sample=kinds)
+    masks = [(s, t, v) for s, t, v in deref_writes(c) if re.search(r'ipfilter::apply_mask\(', v)]
+    ok = len(masks) == 1 and re.match(r'^(.*)\.0\.0$', masks[0][1]) is not None and masks[0][2] == 'ipfilter::apply_mask(%s, %s)' % (masks[0][1], masks[0][1][:-1] + '1')
+    ctx.check('create|masked', ok, 'masking writes %s' % [(t[-30:], v[-80:]) for _, t, v in masks], sample=len(masks))
+    fn = c.calls(r'BitTree::fill_node$')
+    ctx.check('create|fill-root', len(fn) == 1 and [N(a) for a in c.call_args(fn[0])][1:] == ['data', '0'], 'fill_node called with %s' % [[N(a)[:30] for a in c.call_args(x)] for x in fn], sample=len(fn))
+    if sorts and fn and masks:
+        ctx.check('create|order', blocks_must_pass_block(c, fn[0].bb, [sorts[0].bb]) and c.can_reach(masks[0][0].bb, sorts[0].bb) and not c.can_reach(sorts[0].bb, masks[0][0].bb),
+                  'mask, sort, fill_node do not happen in this order', sample=True)
+    tn = [v for _, v in ret_assigns(P.body(T + 'top_nibble'))]
+    ctx.check('top_nibble', tn == ['(((v >> 124) & 15) as u8)'], 'top_nibble = %s' % tn, sample=tn)
+    am = sorted(v for _, v in ret_assigns(P.body(T + 'apply_mask')))
+    ctx.check('apply_mask', am == ['(val & (num::checked_shl(MAX=340282366920938463463374607431768211455, ((128 - len) as u32)) as Some).0)', '0'], 'apply_mask = %s' % am, sample=am)
+    l = P.body(T + 'BitTree::lookup')
+    node = r'node\{Vec::index\(self\.nodes, \(next_idx as usize\)\) \| Vec::index\(self\.nodes, 0\)\}'
+    for s, v in ret_assigns(l):
+        gs = l.guard_strings(s.bb)
+        if v == '1':
+            ctx.check('lookup|true|inset', bool(gs) and re.match(r'^\(\(%s\.inset & cur\) != 0\)$' % node, gs[-1]) is not None, 'returns true under %s' % gs[-1:], s.where(), sample=gs[-1:])
+        elif v == '0':
+            ok = len(gs) >= 2 and re.match(r'^\(\(%s\.inset & cur\) == 0\)$' % node, gs[-2]) is not None and re.match(r'^\(\(%s\.outset & cur\) != 0\)$' % node, gs[-1]) is not None
+            ctx.check('lookup|false|outset-after-inset', ok, 'returns false under %s' % gs[-2:], s.where(), sample=gs[-2:])
+        else:
+            ctx.check('lookup|result-form', False, 'lookup returns %s' % v, s.where())
+    defs = {}
+    for i, lc in enumerate(l.locals):
+        if lc.get('name') in ('val', 'cur', 'next_idx') and l.defs().get(i):
+            defs.setdefault(lc['name'], []).extend(N(l._def_term(dd, ())) for dd in l.defs()[i])
+    ctx.check('lookup|symbol', defs.get('cur') == ['(1 << ipfilter::top_nibble(val))'], 'cur = %s' % defs.get('cur'), sample=defs.get('cur'))
+    ctx.check('lookup|shift', defs.get('val') == ['(val << 4)'], 'val = %s' % defs.get('val'), sample=defs.get('val'))
+    defs['next_idx'] = [re.sub(node, 'node', x) for x in defs.get('next_idx', [])]
+    ctx.check('lookup|child-index', defs.get('next_idx') == ['(node.child_offset + num::count_ones((!((node.inset | node.outset)) & (cur - 1))))'], 'next_idx = %s' % defs.get('next_idx'), sample=defs.get('next_idx'))
+    f = P.body(T + 'BitTree::fill_node')
+    dw = deref_writes(f)
+    nd = r'Vec::index_mut\(self\.nodes, node_index\)'
+    co = [v for _, t, v in dw if re.match('^%s\\.child_offset$' % nd, t)]
+    ctx.check('fill_node|child_offset', co == ['(Vec::len(self.nodes) as u32)'], 'child_offset = %s' % co, sample=co)
+    clr = [v for _, t, v in dw if re.match('^%s\\.outset$' % nd, t) and re.search(r'& !\(', v)]
+    ctx.check('fill_node|outset-cleared-by-inset', clr == ['(Vec::index_mut(self.nodes, node_index).outset & !(Vec::index_mut(self.nodes, node_index).inset))'], 'outset masking %s' % clr, sample=len(clr))
+    oset = [(s, v) for s, t, v in dw if re.match('^%s\\.outset$' % nd, t) and re.search(r'\| \(1 << ', v)]
+    ctx.check('fill_node|outset-sites', len(oset) == 1, 'outset set at %d sites' % len(oset), sample=len(oset))
+    for s, v in oset:
+        ctx.guard(f, s, 'empty-segment', fact_is(r'^Option::copied\(slice::first\(', ['None']), key='fill_node|outset|only-empty-segment')
+    sh = sorted(N(f.rvalue_term(s.data['rv'])) if False else v[-12:] for s, t, v in dw if re.search(r'\.0\.[01]$', t))
+    ctx.check('fill_node|descend', sh == [' as Some).0.0 << 4)'[-12:], ' as Some).0.1 - 4)'[-12:]] or sorted(x.strip() for x in sh) == sorted(['.0.0 << 4)', '.0.1 - 4)']) or
+              (len(sh) == 2 and sh[0].endswith('<< 4)') and sh[1].endswith('- 4)')) or (len(sh) == 2 and sh[1].endswith('<< 4)') and sh[0].endswith('- 4)')),
+              'descending one level rewrites (value, length) as %s' % sh, sample=sh)
+    rng = [N(f.rvalue_term(s.data['rv'])) for s in f.aggregates(r'::Range$')]
+    ctx.check('fill_node|short-prefix-span', rng == ['Range{start: 0, end: (1 << (4 - len))}'], 'short prefix covers %s' % rng, sample=rng)
+    for s in f.aggregates(r'::Range$'):
+        ctx.guard(f, s, 'len<=4', fact_cmp('Le', r'^len$', r'^4$', names=True), key='fill_node|short-prefix|len<=4')
+    rec = f.calls(r'BitTree::fill_node$')
+    ctx.check('fill_node|recursion', len(rec) == 1 and [N(a) for a in f.call_args(rec[0])] == ['self', 'segment', 'child_offset{(child_offset + 1) | child_offset}'], 'recursive call %s' % [[N(a) for a in f.call_args(x)] for x in rec], sample=len(rec))
+    for s in rec:
+        ctx.guard(f, s, 'undecided', fact_cmp('Eq', r'^\(known_bitmap & \(1 << i\)\)$', r'^0$', names=True), key='fill_node|recursion|only-undecided')
+    ext = [N(f.call_args(x)[1]) for x in f.calls(r'repeat_n$')]
+    cz = [N(f.call_args(x)[0]) for x in f.calls(r'num::count_zeros$')]
+    ctx.check('fill_node|children-allocated', ext == ['unknown_count'] and cz == ['known_bitmap'], 'children allocated: repeat_n(.., %s), count_zeros(%s)' % (ext, cz), sample=[ext, cz])
+    buckets = [lc['ty'] for lc in f.locals if lc.get('name') in ('counts', 'subsegments')]
+    ctx.check('fill_node|sixteen-buckets', len(buckets) == 2 and all(re.search(r'; 16\]$', t) for t in buckets), 'bucket arrays %s' % buckets, sample=buckets)
+
+
+RULES = [r1, r2, r3, r4]
+FLOORS = {'C31-R1': 9, 'C31-R2': 12, 'C31-R3': 6, 'C31-R4': 20}
